@@ -45,6 +45,9 @@ def init (ws : List String) : Option QSt := do
         let ks := v.splitOn ","
         if ks.length != NA || ks.any (fun x => x != "n" && x != "c") then none
         kinds := ks.map (· == "n")
+      else if k == "dn" then
+        -- denom set of the world (names of the native assets): the model does not look at names
+        let _ ← v.toNat?
       else if k.startsWith "p" then
         let idx ← (k.drop 1).toNat?
         let ns ← commaNats? v
